@@ -183,7 +183,9 @@ func gen(t *rapid.T) world {
 				switch rapid.IntRange(0, 5).Draw(t, "options") {
 				case 0:
 					idc := map[string]string{"row_a": "id", "row_b": "id", "row_c": "key"}[w.table]
-					o.options = &sqlgen.SelectOptions{Where: fmt.Sprintf("%s = ? OR %s = ?", idc, idc)}
+					// a top-level OR in the caller's own clause, spelled the ways SQL allows
+					form := rapid.SampledFrom([]string{"%s = ? OR %s = ?", "%s = ? or %s = ?", "%s = ?\nOR %s = ?", "%s = ? OR(%s = ?)", "%s = ?\tOr\t%s = ?"}).Draw(t, "orform")
+					o.options = &sqlgen.SelectOptions{Where: fmt.Sprintf(form, idc, idc)}
 					if w.table == "row_c" {
 						o.options.Values = []interface{}{"k1", "k2"}
 					} else {
